@@ -1,6 +1,6 @@
 //! Checks decided by engine W (wire / storage faults): C09 C16 C17 C18.
 
-use crate::core::{ClockCfg, Fail, Installed, SeqHooks, guarded};
+use crate::core::{ClockCfg, Fail, Installed, SeqHooks, guarded, trace_case};
 use crate::driver::{Check, MinStats, RunOut, Tier};
 use crate::prng::{Digest, Rng};
 use crate::seq::Violation;
@@ -45,6 +45,7 @@ impl RoundTrip {
         let mut dg = Digest::default();
         let mut probes = BTreeMap::new();
         for v in vals {
+            trace_case(|| json!({"values": [v]}));
             match round_trip(v, self.codec) {
                 Ok(Some(enc)) => {
                     out.inner_evals += 1;
@@ -77,6 +78,9 @@ impl RoundTrip {
 }
 
 impl Check for RoundTrip {
+    fn isolate(&self) -> bool {
+        true
+    }
     fn prop(&self) -> &'static str {
         self.prop
     }
@@ -148,6 +152,7 @@ fn call_parser(
     p: ParserFn,
     input: &str,
 ) -> Option<(String, String)> {
+    trace_case(|| json!({"inputs": [[name, input]]}));
     hooks.begin_op(64 * (input.len() as u64 + 256));
     let r = guarded(|| p(input));
     hooks.end_op();
@@ -281,6 +286,9 @@ fn push_v(out: &mut RunOut, sig: String, detail: String) {
 }
 
 impl Check for Totality {
+    fn isolate(&self) -> bool {
+        true
+    }
     fn prop(&self) -> &'static str {
         "C18"
     }
@@ -453,6 +461,7 @@ fn judge(
     must_fail: bool,
     st: &mut Stages,
 ) -> Option<(String, String)> {
+    trace_case(|| json!({"damaged_only": text}));
     // entry point 1: PriceLevel::from_snapshot_json
     let r1 = guarded(|| PriceLevel::from_snapshot_json(text).map(|l| content_of_level(&l)));
     match r1 {
@@ -929,6 +938,9 @@ impl Tamper {
 }
 
 impl Check for Tamper {
+    fn isolate(&self) -> bool {
+        true
+    }
     fn prop(&self) -> &'static str {
         "C09"
     }
@@ -960,6 +972,21 @@ impl Check for Tamper {
     fn run_case(&self, case: &Value) -> Result<RunOut, String> {
         if let (Some(o), Some(d)) = (case["original"].as_str(), case["damaged"].as_str()) {
             return Ok(self.run_package(o, 0, Some(d)));
+        }
+        if let Some(d) = case["damaged_only"].as_str() {
+            // crash triage case: the text alone (restoring it brought the process down)
+            let mut out = RunOut::default();
+            let r = guarded(|| PriceLevel::from_snapshot_json(d).is_ok());
+            if let Err(f) = r {
+                out.violations.push(Violation {
+                    prop: "C09".into(),
+                    sig: "C09/restore-panics".into(),
+                    at: 0,
+                    detail: format!("from_snapshot_json {} on {:?}", f.brief(), clip(d)),
+                });
+            }
+            let _ = guarded(|| serde_json::from_str::<PriceLevelSnapshotPackage>(d).is_ok());
+            return Ok(out);
         }
         let pk: Vec<String> =
             serde_json::from_value(case["packages"].clone()).map_err(|e| e.to_string())?;
